@@ -4,6 +4,8 @@ import itertools
 
 ID = "C19"
 CRATE = "c19"
+# sibling sources whose edits enlarge the quick correspondence (fingerprints in source_pins.json)
+SOURCES = ["rlib/io/src/reader.rs", "rlib/io/src/writer.rs"]
 COQ_DIR = "C19"
 COQ_DEPS = []
 PROFILES = ["debug", "release"]
